@@ -1,9 +1,392 @@
-import Model.Common
-/-! Oracle handlers for C18 (stub until the property's model exists). -/
-namespace OracleC18
-open Common
+import Model.C18
+/-!
+Oracle handlers for C18.
 
-def handle (_cmd : String) (_f : List String) : String × String × String :=
-  ("unknown-cmd", "-", "-")
+`C18.init` — diff: the model's `initModules`, run with map-iteration orders reconstructed from the
+observed call order (any topological order is a possible output of `orderedDeps`, so the oracle
+builds the one that extends the observed order and checks the model reproduces the observation);
+judge: the statement (once, after dependencies, only needed) on the observed call order.
+`C18.add` — diff: `addDependency`; judge: a dependency that closes a cycle must be rejected.
+`C18.run` — run-time wrappers (see below).
+-/
+namespace OracleC18
+open Common C18
+
+def natOf (s : String) : Nat := s.toNat?.getD 0
+def listOfNat (s : String) : List Nat := if s == "-" || s == "" then [] else (s.splitOn ",").map natOf
+def showNats (l : List Nat) : String := if l.isEmpty then "-" else ",".intercalate (l.map toString)
+def listOfStr (s : String) : List String := if s == "-" || s == "" then [] else s.splitOn ","
+def bitsOf (s : String) : List Bool := if s == "-" then [] else s.toList.map (· == '1')
+
+def parseGraph (n deps : String) : Graph :=
+  { n := natOf n, deps := (deps.splitOn "/").map listOfNat }
+
+/-! ### judge-side graph helpers (independent of `listDeps`) -/
+
+/-- transitive closure of the dependency relation from `m`, by fixpoint iteration. -/
+def closureFrom (g : Graph) (start : List Mod) : List Mod :=
+  let stepF := fun (acc : List Mod) =>
+    acc.foldl (fun a x => (g.depsOf x).foldl (fun a d => if a.contains d then a else a ++ [d]) a) acc
+  (List.range (g.n + 1)).foldl (fun acc _ => stepF acc) start
+
+def reach (g : Graph) (m : Mod) : List Mod :=
+  closureFrom g (C18.dedup (g.depsOf m))
+
+def hasCycle (g : Graph) : Bool := (List.range g.n).any fun m => (reach g m).contains m
+
+/-! ### C18.init -/
+
+/-- a topological order of `uniq` that extends the observed call order `obs`: silent modules (no init
+function, or initialised by an earlier call) as early as possible, observed ones in observed order,
+never-reached ones last. -/
+def witnessOrder (g : Graph) (cfg : Cfg) (uniq obs inited : List Mod) : List Mod :=
+  let cls := fun (x : Mod) =>
+    if inited.contains x || !(cfg.hasInit.getD x false) then (0, x)
+    else match obs.idxOf? x with
+      | some i => (1, i)
+      | none => (2, x)
+  let rec go (fuel : Nat) (placed : List Mod) : List Mod :=
+    match fuel with
+    | 0 => placed
+    | fuel + 1 =>
+      let ready := uniq.filter fun x => !placed.contains x && (g.depsOf x).all placed.contains
+      match ready with
+      | [] => placed
+      | r :: rs =>
+        let best := rs.foldl (fun b x =>
+          let (cb, kb) := cls b; let (cx, kx) := cls x
+          if cx < cb || (cx == cb && kx < kb) then x else b) r
+        go fuel (placed ++ [best])
+  go uniq.length []
+
+def runInit (g : Graph) (cfg : Cfg) (targets obs : List Mod) : String × String × String :=
+  let fuel := g.n + 2
+  let rec go (ts : List Mod) (st : InitState) : Except InitErr InitState :=
+    match ts with
+    | [] => .ok st
+    | t :: rest =>
+      let uniq := match listDeps g fuel t with
+        | some d => C18.dedup d
+        | none => []
+      let w := witnessOrder g cfg uniq obs st.inited
+      match initModule g cfg fuel (fun _ => w) t st with
+      | .error e => .error e
+      | .ok st' => go rest st'
+  match go targets {} with
+  | .ok st => (showNats st.log, "ok", showNats (st.svcs.mergeSort))
+  | .error .unrecognised => ("?", "unrecognised", "-")
+  | .error (.initFailed _) => ("?", "initerr", "-")
+  | .error .crash => ("?", "crash", "-")
+
+/-- replay until the error to obtain the model's call log in the error case as well. -/
+def runInitLog (g : Graph) (cfg : Cfg) (targets obs : List Mod) : String :=
+  let fuel := g.n + 2
+  let rec go (ts : List Mod) (st : InitState) : List Mod :=
+    match ts with
+    | [] => st.log
+    | t :: rest =>
+      if !g.has t then st.log else
+      let uniq := match listDeps g fuel t with
+        | some d => C18.dedup d
+        | none => []
+      let w := witnessOrder g cfg uniq obs st.inited
+      -- the loop of initModule, keeping the log on error
+      let rec loop (l : List Mod) (st : InitState) : InitState × Bool :=
+        match l with
+        | [] => (st, true)
+        | n :: r =>
+          if st.inited.contains n then loop r st
+          else if cfg.hasInit.getD n false then
+            let st := { st with log := st.log ++ [n] }
+            if cfg.initErr.getD n false then (st, false)
+            else loop r { st with inited := st.inited ++ [n] }
+          else loop r { st with inited := st.inited ++ [n] }
+      match orderedDeps g fuel (fun _ => w) t with
+      | none => st.log
+      | some deps =>
+        let (st', ok) := loop (deps ++ [t]) st
+        if ok then go rest st' else st'.log
+  showNats (go targets {})
+
+def posOf (l : List Nat) (x : Nat) : Nat := (l.idxOf? x).getD l.length
+
+def judgeInit (g : Graph) (cfg : Cfg) (targets obs : List Mod) (result : String) (keys : List Mod) : List String := Id.run do
+  let mut bad : List String := []
+  let validTargets := targets.takeWhile g.has
+  let needed := closureFrom g (C18.dedup validTargets)
+  -- exactly once
+  if C18.dedup obs != obs && (C18.dedup obs).length != obs.length then bad := bad ++ ["initialised-twice"]
+  if obs.any fun x => (obs.filter (· == x)).length > 1 then bad := bad ++ ["initialised-twice"]
+  -- only needed modules
+  if obs.any fun x => !needed.contains x then bad := bad ++ ["unneeded-module-initialised"]
+  -- after everything it depends on (that has an init function and is initialised at all)
+  for m in obs do
+    for d in reach g m do
+      if cfg.hasInit.getD d false then
+        if !(posOf obs d < posOf obs m) then bad := if bad.contains "initialised-before-dependency" then bad else bad ++ ["initialised-before-dependency"]
+  if result == "ok" then
+    -- every needed module is initialised
+    if needed.any fun x => cfg.hasInit.getD x false && !obs.contains x then bad := bad ++ ["needed-module-not-initialised"]
+    let wantKeys := (needed.filter fun x => cfg.hasInit.getD x false && cfg.hasSvc.getD x false).mergeSort
+    if keys != wantKeys then bad := bad ++ ["service-map-keys"]
+    if targets.any (fun t => !g.has t) then bad := bad ++ ["unknown-target-accepted"]
+  return bad
+
+def handleInit (f : List String) : String × String × String :=
+  match f with
+  | [gc, ts, obsS, result, keysS] =>
+    match gc.splitOn ";" with
+    | [n, deps, hi, ie, hs] =>
+      let g := parseGraph n deps
+      let cfg : Cfg := { hasInit := bitsOf hi, initErr := bitsOf ie, hasSvc := bitsOf hs }
+      let targets := listOfNat ts
+      let obs := listOfNat obsS
+      let keys := listOfNat keysS
+      let (_, mres, mkeys) := runInit g cfg targets obs
+      let mlog := runInitLog g cfg targets obs
+      let model := [mlog, mres, if mres == "ok" then mkeys else "-"]
+      let diff := if model == [obsS, result, keysS] then "-" else "model=" ++ " ".intercalate model
+      let j := if result.startsWith "add-rejected" then ["dag-edge-rejected"] else judgeInit g cfg targets obs result keys
+      let judge := if j.isEmpty then "-" else ",".intercalate j
+      let nedges := (g.deps.map (·.length)).foldl (· + ·) 0
+      let tags := s!"k=init n={g.n} edges={min nedges 12} targets={min targets.length 4} inits={min obs.length 12} res={result} partial={cfg.hasInit.contains false || cfg.hasSvc.contains false}"
+      (diff, judge, tags)
+    | _ => ("bad-graph", "-", "-")
+  | _ => ("bad-fields", "-", "-")
+
+/-! ### C18.add -/
+
+def parseCalls (s : String) : List (Mod × List Mod) :=
+  if s == "-" || s == "" then [] else
+  (s.splitOn ";").map fun c =>
+    match c.splitOn ">" with
+    | [a, ds] => (natOf a, listOfNat ds)
+    | _ => (0, [])
+
+def addResStr : AddRes → String
+  | .ok => "ok" | .noSuchModule => "nosuch" | .circular => "cycle" | .crash => "crash"
+
+def handleAdd (f : List String) : String × String × String :=
+  match f with
+  | [ns, callsS, resS, probe] =>
+    let n := natOf ns
+    let calls := parseCalls callsS
+    let obs := if resS == "-" then [] else resS.splitOn ","
+    let fuel := n + 2
+    -- model replay
+    let (g, mres) := calls.foldl (fun (acc : Graph × List String) (c : Mod × List Mod) =>
+      let (r, g') := addDependency acc.1 fuel c.1 c.2
+      (g', acc.2 ++ [addResStr r])) (Graph.empty n, [])
+    -- the probe: InitModuleServices(target) on the final graph
+    let mprobe :=
+      match probe.splitOn ":" with
+      | [_, t] =>
+        let t := natOf t
+        let r := match initModule g { hasInit := [], initErr := [], hasSvc := [] } fuel (fun _ => List.range n) t {} with
+          | .ok _ => "ok" | .error .crash => "crash" | .error _ => "err"
+        if probe.startsWith "unprobed" then probe else r ++ ":" ++ toString t
+      | _ => if hasCycle g then "cycle-unprobed" else "-"
+    let diff := if mres == obs && mprobe == probe then "-" else "model=" ++ ",".intercalate mres ++ " probe=" ++ mprobe
+    -- judge: replay the ACCEPTED calls on a plain edge list; an accepted call must not close a cycle
+    let j : List String := Id.run do
+      let mut bad : List String := []
+      let mut gg := Graph.empty n
+      let mut i := 0
+      for c in calls do
+        let r := obs.getD i "?"
+        i := i + 1
+        let known := c.1 < n && c.2.all (· < n)
+        if r == "ok" then
+          if !known then bad := bad ++ ["unknown-module-accepted"]
+          else
+            let g2 : Graph := { gg with deps := setDeps gg.deps c.1 (· ++ c.2) }
+            if hasCycle g2 && !hasCycle gg then
+              bad := bad ++ [if c.2.contains c.1 then "self-dependency-accepted" else "cycle-accepted"]
+            gg := g2
+        else if r == "cycle" then
+          let g2 : Graph := { gg with deps := setDeps gg.deps c.1 (· ++ c.2) }
+          if known && !hasCycle g2 then bad := bad ++ ["acyclic-dependency-rejected"]
+        else if r == "nosuch" then
+          if known then bad := bad ++ ["known-module-rejected"]
+      if probe.startsWith "crash" || probe.startsWith "timeout" then bad := bad ++ ["init-does-not-return"]
+      return bad
+    let judge := if j.isEmpty then "-" else ",".intercalate j
+    (diff, judge, s!"k=add n={n} calls={min calls.length 8} rejected={(obs.filter (· == "cycle")).length} cycle={hasCycle g}")
+  | _ => ("bad-fields", "-", "-")
+
+/-! ### C18.run — the wrappers at run time -/
+
+open C17 (SState)
+
+def phCode (p : WPhase) : String := p.state.code
+
+def parkOf (x : ModSt) : String :=
+  match x.inner with
+  | .starting => "s" | .running => "r" | .stopping => "p" | _ => "-"
+
+structure RSim where
+  sys : Sys
+  order : List Mod
+
+def latchedBad (s : Sys) (d : Mod) : Bool := (s.st d).ph.latched && (s.st d).ph != .run
+
+/-- one eager internal step of module `m` (what the real goroutines do without being asked), if any.
+`failHint` = the implementation shows this wrapper Failed. -/
+def eagerStep (s : Sys) (m : Mod) (failHint : Bool) : Option Sys :=
+  let x := s.st m
+  match x.ph with
+  | .waitDeps ok =>
+    let deps := s.startDeps m
+    if x.wctx then some (s.step (.awaitCancelled m))
+    else if deps.all fun d => (s.st d).ph.latched then
+      match deps.find? (latchedBad s) with
+      | some d => some (s.step (.awaitFail m d))
+      | none =>
+        match deps.find? (fun d => !ok.contains d) with
+        | some d => some (s.step (.awaitOk m d))
+        | none => some (s.step (.depsDone m))
+    else if failHint then
+      (deps.find? (latchedBad s)).map fun d => s.step (.awaitFail m d)
+    else none
+  | .innerStart =>
+    if x.wctx || x.inner == .stopping || x.inner.terminal then some (s.step (.innerStartFailed m))
+    else if x.inner == .running then some (s.step (.innerUp m))
+    else none
+  | .startCleanup => if x.inner.terminal then some (s.step (.cleanupDone m)) else none
+  | .run => if x.wctx || x.inner.terminal then some (s.step (.runExit m)) else none
+  | .stopWait =>
+    if (s.stopDeps m).all (fun k => (s.st k).ph.terminal) then some (s.step (.dependantsGone m)) else none
+  | .innerStop => if x.inner.terminal then some (s.step (.innerStopped m)) else none
+  | _ => none
+
+def settleR (order : List Mod) (hint : Mod → Bool) : Nat → Sys → Sys
+  | 0, s => s
+  | fuel + 1, s =>
+    match order.findSome? (fun m => eagerStep s m (hint m)) with
+    | some s' => settleR order hint fuel s'
+    | none => s
+
+def parseRAct (a : String) : String × Nat × Nat :=
+  if a == "SA" || a == "XA" then (a, 0, 0)
+  else
+    let rest := String.ofList (a.toList.drop 1)
+    match rest.splitOn ":" with
+    | [i, k] => (String.ofList (a.toList.take 1), natOf i, natOf k)
+    | [i] => (String.ofList (a.toList.take 1), natOf i, 0)
+    | _ => ("?", 0, 0)
+
+def applyR (order : List Mod) (s : Sys) (a : String) : Sys :=
+  let (kind, m, k) := parseRAct a
+  match kind with
+  | "SA" => order.foldl (fun s i => s.step (.wStart i)) s
+  | "XA" => order.foldl (fun s i => s.step (.wStop i)) s
+  | "W" => s.step (.wStart m)
+  | "X" => s.step (.wStop m)
+  | "s" => s.step (.iStartRet m (k == 0))
+  | "r" => s.step (.iRunRet m (k == 0))
+  | "p" => s.step (.iStopRet m (k == 0))
+  | _ => s
+
+def renderR (order : List Mod) (s : Sys) : String :=
+  if order.isEmpty then "-" else
+  " ".intercalate (order.map fun m =>
+    let x := s.st m
+    toString m ++ ":" ++ phCode x.ph ++ x.inner.code ++ parkOf x)
+
+/-- wrapper state the implementation shows for module `m` in a snapshot's state field. -/
+def implW (states : String) (m : Mod) : Option Char :=
+  (states.splitOn " ").findSome? fun p =>
+    match p.splitOn ":" with
+    | [i, st] => if natOf i == m then st.toList.head? else none
+    | _ => none
+
+def handleRun (f : List String) : String × String × String :=
+  match f with
+  | [hd, actsS, obs] =>
+    match hd.splitOn ";" with
+    | [n, deps, hi, ie, hs, ts] =>
+      let g := parseGraph n deps
+      let cfg : Cfg := { hasInit := bitsOf hi, initErr := bitsOf ie, hasSvc := bitsOf hs }
+      let targets := listOfNat ts
+      let fuel := g.n + 2
+      match initModules g cfg fuel (fun _ _ => List.range g.n) 0 targets {} with
+      | .error _ => (if obs == "initerr" then "-" else "model=initerr", "-", "k=run initerr")
+      | .ok ist =>
+        let order := ist.svcs.mergeSort
+        let startDeps := fun (m : Mod) => ((dependenciesFor g fuel m).getD []).filter order.contains
+        let stopDeps := fun (m : Mod) => ((inverseDeps g fuel m).getD []).filter order.contains
+        let sys0 : Sys := { mods := order, startDeps, stopDeps, st := fun _ => {} }
+        let acts := if actsS == "-" || actsS == "" then [] else actsS.splitOn " "
+        let raws := obs.splitOn " | "
+        let implStates := raws.map fun r => (r.splitOn ";").headD ""
+        let hintOf := fun (st : String) (m : Mod) => implW st m == some 'F'
+        let fuelS := 40 * (order.length + 1)
+        let rec go (s : Sys) (acts : List String) (impl : List String) (acc : List String) : List String :=
+          match acts with
+          | [] => acc.reverse
+          | a :: rest =>
+            let s := settleR order (hintOf (impl.headD "")) fuelS (applyR order s a)
+            go s rest impl.tail (renderR order s :: acc)
+        let s0 := settleR order (hintOf (implStates.headD "")) fuelS sys0
+        let model := go s0 acts implStates.tail [renderR order s0]
+        let diff := if model == implStates then "-" else
+          let idx := (List.zip model implStates).findIdx (fun p => p.1 != p.2)
+          s!"step={idx} model={model.getD idx "?"}"
+        -- judge on the observed timeline
+        let j : List String := Id.run do
+          let mut bad : List String := []
+          let add := fun (l : List String) (k : String) => if l.contains k then l else l ++ [k]
+          let events := raws.flatMap fun r => listOfStr ((r.splitOn ";").getD 1 "-")
+          if raws.any fun r => (r.splitOn ";").getD 2 "-" != "-" then bad := add bad "harness-flag:stuck"
+          let svcMods := ((implStates.headD "").splitOn " ").filterMap fun p =>
+            match p.splitOn ":" with | [i, _] => some (natOf i) | _ => none
+          let depsOf := fun (m : Mod) => (reach g m).filter svcMods.contains
+          let dependantsOf := fun (m : Mod) => svcMods.filter fun x => (reach g x).contains m
+          let mut seenRun : List Mod := []
+          let mut innerStarted : List Mod := []
+          for ev in events do
+            match ev.splitOn "." with
+            | ["wrun", m] => seenRun := natOf m :: seenRun
+            | ["istart", m, wv] =>
+              let m := natOf m
+              innerStarted := m :: innerStarted
+              -- a module's service starts only after all its dependencies are running
+              for d in depsOf m do
+                let c := wv.toList.getD (svcMods.idxOf d) '?'
+                if !(c == 'R' || ((c == 'P' || c == 'T' || c == 'F') && seenRun.contains d)) then
+                  bad := add bad "started-before-dependency-running"
+            | ["stopreq", m, ist, wv] =>
+              let m := natOf m
+              -- a running service is stopped only after every module depending on it has stopped
+              if ist == "R" then
+                for x in dependantsOf m do
+                  let c := wv.toList.getD (svcMods.idxOf x) '?'
+                  if c != 'T' && c != 'F' then bad := add bad "stopped-before-dependant-stopped"
+            | _ => pure ()
+          -- a dependency that fails to start: dependants are not started and fail as well
+          let last := implStates.getLast?.getD ""
+          let everLeftNew := fun (m : Mod) => implStates.any fun st =>
+            match implW st m with | some c => c == 'S' || c == 'R' || c == 'P' || c == 'F' | none => false
+          -- (callbacks are asynchronous: a wrapper seen Running in any snapshot has run as well)
+          let ranEver := fun (d : Mod) => seenRun.contains d || implStates.any fun st => implW st d == some 'R'
+          for d in svcMods do
+            if implW last d == some 'F' && !ranEver d then
+              for m in dependantsOf d do
+                if innerStarted.contains m then bad := add bad "dependant-of-failed-module-started"
+                if everLeftNew m && implW last m == some 'T' then bad := add bad "dependant-of-failed-module-did-not-fail"
+          return bad
+        let judge := if j.isEmpty then "-" else ",".intercalate j
+        let last := implStates.getLast?.getD ""
+        let nF := (last.toList.filter (· == 'F')).length
+        let nedges := (g.deps.map (·.length)).foldl (· + ·) 0
+        (diff, judge, s!"k=run n={g.n} svcs={order.length} edges={min nedges 10} acts={min acts.length 30 / 5 * 5} failedEnd={min nF 4} started={acts.contains "SA" || acts.any (·.startsWith "W")}")
+    | _ => ("bad-head", "-", "-")
+  | _ => ("bad-fields", "-", "-")
+
+def handle (cmd : String) (f : List String) : String × String × String :=
+  if cmd == "C18.init" then handleInit f
+  else if cmd == "C18.add" then handleAdd f
+  else if cmd == "C18.run" then handleRun f
+  else ("unknown-cmd", "-", "-")
 
 end OracleC18
